@@ -383,7 +383,85 @@ def run_c18(tier, seed):
             if not eq[(n1, n3)]:
                 col.violation("bounded:c18:transitive:" + klass(n1, n2, n3), "%s == %s and %s == %s but not %s == %s"
                               % (n1, n2, n2, n3, n1, n3), dict(a=n1, b=n2, c=n3))
-    return [col.result()]
+    return [col.result(), run_c18_history(tier, seed)]
+
+
+def _build(desc):
+    """desc: ('a', name) | ('i', int) | ('l', [desc...]) | ('t', functor, [desc...]); a fresh object graph on every call."""
+    from problog.logic import Term, Constant, list2term
+    k = desc[0]
+    if k == "a":
+        return Term(desc[1])
+    if k == "i":
+        return Constant(desc[1])
+    if k == "l":
+        t = Term("[]")
+        for d in reversed(desc[1]):
+            t = Term(".", _build(d), t)
+        return t
+    return Term(desc[1], *[_build(d) for d in desc[2]])
+
+
+def _gen_desc(rng, depth):
+    r = rng.random()
+    if depth <= 0 or r < 0.25:
+        return ("a", rng.choice("abc")) if rng.random() < 0.5 else ("i", rng.randrange(4))
+    if r < 0.6:
+        n = rng.choice([0, 1, 2, 3, 9, 10, 11, 12, 13, 15, 25])
+        return ("l", [_gen_desc(rng, 0 if n > 3 else depth - 1) for _ in range(n)])
+    return ("t", rng.choice("fgh"), [_gen_desc(rng, depth - 1) for _ in range(rng.randint(1, 3))])
+
+
+def _subterms_pre(t, out):
+    out.append(t)
+    for x in (t.args or ()):
+        _subterms_pre(x, out)
+    return out
+
+
+def run_c18_history(tier, seed):
+    """Equality and hash must be a function of the term, not of what was asked of it (or of a term that contains it)
+    before: Term caches its hash, list length, groundness and variables on first use, and containers read the caches of
+    their parts."""
+    import random
+    n = 20000 if tier == "thorough" else 2500
+    rng = random.Random(seed * 7919 + 18)
+    col = Collector("C18:hash-independent-of-history", "%d random ground terms (atoms, ints, compounds, lists of 0..25 elements "
+                    "nested up to depth 3), each built twice as separate object graphs; on the first copy hash(), "
+                    "_list_length(), is_ground(), str() and variables() are called on randomly chosen subterms in random order "
+                    "(so that caches are filled through containers first), nothing on the second; then every pair of "
+                    "corresponding subterms must be ==, have the same hash and find each other in a dict" % n)
+    ops = [hash, lambda t: t._list_length(), lambda t: t.is_ground(), str, lambda t: t.variables()]
+    for i in range(n):
+        d = _gen_desc(rng, 3)
+        t1, t2 = _build(d), _build(d)
+        s1, s2 = _subterms_pre(t1, []), _subterms_pre(t2, [])
+        order = list(range(len(s1)))
+        rng.shuffle(order)
+        hist = []
+        for j in order[:rng.randint(1, 6)]:
+            o = rng.randrange(len(ops))
+            hist.append((j, o))
+            ops[o](s1[j])
+        col.case(("hist", i))
+        for j, (x, y) in enumerate(zip(s1, s2)):
+            bad = None
+            try:
+                if not (x == y and y == x):
+                    bad = "are not =="
+                elif hash(x) != hash(y):
+                    bad = "have different hashes"
+                elif {x: 1}.get(y) != 1:
+                    bad = "do not find each other in a dict"
+            except Exception as e:      # noqa
+                bad = "raise %s" % classify_exception(e)
+            if bad:
+                col.violation("bounded:c18:history", "two separately built copies of %s %s after calling %s on subterms of the "
+                              "first copy of %s" % (y, bad, [("hash", "_list_length", "is_ground", "str", "variables")[o] +
+                                                            "(#%d)" % k for k, o in hist], t2),
+                              dict(desc=repr(d), subterm=j, history=hist))
+                break
+    return col.result()
 
 
 def run(pid, tier, seed):
